@@ -42,6 +42,25 @@ def numlex(tier, rng):
     words = allw if tier != 'quick' else rng.sample(allw, 700)
     return [('%s%s\nOUTPUT "next line"\n' % (rng.choice(['OUTPUT ', 'x <- ']), w)).encode() for w in words]
 
+# every channel through which a numeral reaches a conversion, at and past the 64-bit / double boundaries
+BOUNDARY_NUMERALS = ['9223372036854775807', '9223372036854775808', '-9223372036854775808', '-9223372036854775809', '18446744073709551616',
+                     '99999999999999999999', '-99999999999999999999', '0' * 25 + '7', '1' + '0' * 400, '4294967296', '2147483648', '0x10', '1e5', '+5', ' 5', '5 ', '', '-', '.', '1.', '.5']
+def boundary_programs():
+    out = []
+    for n in BOUNDARY_NUMERALS:
+        q = '"%s"' % n
+        for stmt in ['OUTPUT INTEGER(%s)' % q, 'OUTPUT REAL(%s)' % q, 'OUTPUT STR_TO_NUM(%s)' % q, 'OUTPUT IS_NUM(%s)' % q,
+                     'DECLARE s : STRING\ns <- %s\nDECLARE i : INTEGER\ni <- INTEGER(s)\nOUTPUT i' % q]:
+            out.append((stmt + '\nOUTPUT "next"\n', b''))
+        for decl in ['INTEGER', 'REAL', 'STRING', 'CHAR', 'BOOLEAN', 'DATE']:
+            out.append(('DECLARE v : %s\nINPUT v\nOUTPUT v\nOUTPUT "next"\n' % decl, n.encode() + b'\n'))
+        if n and n.lstrip('-').isdigit():
+            m = n.lstrip('-')
+            out += [('OUTPUT %s\n' % m, b''), ('OUTPUT 0 - %s\n' % m, b''), ('OUTPUT %s.0\n' % m, b''), ('OUTPUT INT(%s.0)\n' % m, b''), ('OUTPUT CHR(%s)\n' % m, b''),
+                    ('OUTPUT 1/1/%s\n' % m, b''), ('OUTPUT SETDATE(1, 1, %s)\n' % m, b''), ('DECLARE a : ARRAY[1:%s] OF INTEGER\nOUTPUT "declared"\n' % m, b''),
+                    ('OUTPUT LEFT("abc", %s)\n' % m, b''), ('OUTPUT MID("abc", %s, 1)\n' % m, b''), ('FOR i <- %s TO %s\n  OUTPUT i\nNEXT i\n' % (m, m), b'')]
+    return out
+
 def corpus_programs():
     out = []
     for p in sorted(glob.glob(os.path.join(REPO, 'tests', '*.pseudo')) + glob.glob(os.path.join(REPO, 'examples', '*.pseudo'))):
@@ -137,6 +156,8 @@ def generate(tier, rng):
         cases.append(Case((' '.join(s) + '\n').encode(), 'file', '', b'7\n', meta=dict(gen='token-seq-%d' % len(s), sample=False)))
     for src in glued(rng, 600 if tier == 'quick' else 20000):
         cases.append(Case(src, 'file', rng.choice(['', '', '-p']), b'7\n', meta=dict(gen='glued-atoms', sample=False)))
+    for src, inp in boundary_programs():
+        cases.append(Case(src.encode(), 'file', '', inp, meta=dict(gen='numeric-boundary', sample=False)))
     for src in numlex(tier, rng):
         cases.append(Case(src, 'file', '', b'7\n', meta=dict(gen='number-lexer', sample=False)))
     for _ in range(150 if tier == 'quick' else 3000):
